@@ -1432,7 +1432,53 @@ fn panic_violation(p: &PanicRec, op: &Op, i: usize) -> Violation {
 }
 
 /// Execute a trace. Never panics; harness problems are reported in `harness_error`.
+/// Stack of the thread the operations run on when the trace asks for a small one.
+pub const SMALL_STACK: usize = 2 << 20;
+
 pub fn run_trace(
+    trace: &Trace,
+    corpus: &mut Corpus,
+    opts: &mut ExecOpts,
+    stats: &mut Stats,
+) -> RunReport {
+    if !trace.small_stack {
+        return run_trace_impl(trace, corpus, opts, stats);
+    }
+    // The harness' data is full of `Rc`s; the spawning thread does nothing but wait for the
+    // scoped thread, so handing them over for the duration is sound.
+    struct AssertSend<T>(T);
+    unsafe impl<T> Send for AssertSend<T> {}
+    impl<T> AssertSend<T> {
+        fn take(self) -> T {
+            self.0
+        }
+    }
+    stats.bump("runs.small_stack");
+    let args = AssertSend((trace, corpus, opts, stats));
+    let joined = std::thread::scope(|sc| {
+        std::thread::Builder::new()
+            .name("sim-small-stack".into())
+            .stack_size(SMALL_STACK)
+            .spawn_scoped(sc, move || {
+                let (t, c, o, s) = args.take();
+                AssertSend(run_trace_impl(t, c, o, s))
+            })
+            .expect("spawn small-stack thread")
+            .join()
+    });
+    match joined {
+        Ok(r) => r.take(),
+        Err(_) => RunReport {
+            digest: 0,
+            events: Vec::new(),
+            violations: Vec::new(),
+            foreign: Vec::new(),
+            harness_error: Some("small-stack thread panicked outside an op".into()),
+        },
+    }
+}
+
+fn run_trace_impl(
     trace: &Trace,
     corpus: &mut Corpus,
     opts: &mut ExecOpts,
